@@ -42,6 +42,9 @@ type Scenario struct {
 	Terms      map[string]int64 // path -> rank / integer value; NilRank = nil
 	Bools      map[string]bool  // path of bool-valued call or field -> value
 	DefaultInt *int64           // if set: value of integer-typed terms the scenario does not mention (counters irrelevant to the table)
+	MaxVisits  int              // how often a block may be revisited (loops with concrete induction values); default 1
+	Vals       map[ssa.Value]int64 // values keyed by SSA identity (call results, decoded fields); take precedence over Terms
+	BoolVals   map[ssa.Value]bool
 }
 
 type Effect struct {
@@ -110,9 +113,17 @@ func (r *EvalResult) PhiNext(phi *ssa.Phi) ssa.Value {
 type evaluator struct {
 	sc    *Scenario
 	phi   map[*ssa.Phi]ssa.Value
+	phiVal  map[*ssa.Phi]AV           // concrete values of phis decided on this path (loops with concrete induction)
 	bind    map[*ssa.Parameter]string // parameter -> path of the actual argument (inlined callee evaluation)
 	depth   int
 	allowed func(*ssa.BasicBlock) bool
+}
+
+func (ev *evaluator) maxVisits() int {
+	if ev.sc != nil && ev.sc.MaxVisits > 0 {
+		return ev.sc.MaxVisits
+	}
+	return 1
 }
 
 func (ev *evaluator) pathOf(v ssa.Value) string {
@@ -216,6 +227,14 @@ func (ev *evaluator) eval(v ssa.Value, d int) AV {
 	if d > 12 {
 		return AV{Kind: "unknown", Term: "deep"}
 	}
+	if ev.sc != nil {
+		if i, ok := ev.sc.Vals[v]; ok {
+			return AV{Kind: "int", I: i}
+		}
+		if b, ok := ev.sc.BoolVals[v]; ok {
+			return AV{Kind: "bool", B: b}
+		}
+	}
 	switch x := v.(type) {
 	case *ssa.Const:
 		if x.Value == nil {
@@ -233,6 +252,9 @@ func (ev *evaluator) eval(v ssa.Value, d int) AV {
 			return AV{Kind: "int", I: int64(f)}
 		}
 	case *ssa.Phi:
+		if av, ok := ev.phiVal[x]; ok {
+			return av
+		}
 		if rv, ok := ev.phi[x]; ok {
 			return ev.eval(rv, d+1)
 		}
@@ -343,6 +365,9 @@ func (ev *evaluator) eval(v ssa.Value, d int) AV {
 			if r, ok := ev.sc.Terms[ev.pathOf(x.Call.Args[0])]; ok && r == NilRank {
 				return AV{Kind: "int", I: 0}
 			}
+			if ev.sc.DefaultInt != nil {
+				return AV{Kind: "int", I: *ev.sc.DefaultInt}
+			}
 			return AV{Kind: "unknown", Term: p}
 		}
 	}
@@ -406,7 +431,7 @@ func (ev *evaluator) run(start, from, until *ssa.BasicBlock) *EvalResult {
 			return res
 		}
 		visited[b]++
-		if visited[b] > 1 {
+		if visited[b] > ev.maxVisits() {
 			res.Err = "loop revisits block " + b.String() + " (" + b.Comment + ")"
 			return res
 		}
@@ -419,6 +444,7 @@ func (ev *evaluator) run(start, from, until *ssa.BasicBlock) *EvalResult {
 				}
 			}
 			newVals := map[*ssa.Phi]ssa.Value{}
+			newAVs := map[*ssa.Phi]AV{}
 			for _, ins := range b.Instrs {
 				ph, ok := ins.(*ssa.Phi)
 				if !ok {
@@ -426,6 +452,9 @@ func (ev *evaluator) run(start, from, until *ssa.BasicBlock) *EvalResult {
 				}
 				if idx >= 0 {
 					v := ph.Edges[idx]
+					if av := ev.eval(v, 0); av.Kind != "unknown" {
+						newAVs[ph] = av
+					}
 					// resolve through already-decided phis (parallel assignment semantics)
 					if p2, ok := v.(*ssa.Phi); ok {
 						if rv, ok := ev.phi[p2]; ok {
@@ -437,6 +466,13 @@ func (ev *evaluator) run(start, from, until *ssa.BasicBlock) *EvalResult {
 			}
 			for k, v := range newVals {
 				ev.phi[k] = v
+				delete(ev.phiVal, k)
+			}
+			for k, av := range newAVs {
+				if ev.phiVal == nil {
+					ev.phiVal = map[*ssa.Phi]AV{}
+				}
+				ev.phiVal[k] = av
 			}
 		}
 		for _, ins := range b.Instrs {
@@ -445,6 +481,16 @@ func (ev *evaluator) run(start, from, until *ssa.BasicBlock) *EvalResult {
 				res.Effects = append(res.Effects, Effect{Ins: ins, Kind: "store", What: ev.pathOf(x.Addr), Val: ev.pathOf(x.Val)})
 			case *ssa.MapUpdate:
 				res.Effects = append(res.Effects, Effect{Ins: ins, Kind: "mapupdate", What: ev.pathOf(x.Map)})
+			case *ssa.Slice:
+				lo := "0"
+				if x.Low != nil {
+					if k, ok := constInt(x.Low); ok {
+						lo = fmt.Sprint(k)
+					} else {
+						lo = ev.pathOf(x.Low)
+					}
+				}
+				res.Effects = append(res.Effects, Effect{Ins: ins, Kind: "slice", What: ev.pathOf(x.X), Val: lo})
 			case *ssa.Call:
 				name := ""
 				if f := x.Call.StaticCallee(); f != nil {
